@@ -135,7 +135,6 @@ def enclosing_function(clean, line):
             m = re.search(r"\)\s*(?:const\s*)?(?:noexcept\s*)?(?:->\s*[\w:<>,\s&\*]+)?$", head)
             if m:
                 # find the matching '(' of the parameter list
-                k = j - (len(head) - m.start())
                 k = max(0, j - 400) + m.start()
                 par = 0
                 while k >= 0:
@@ -350,6 +349,10 @@ APPEND_METHODS = {"push_back", "emplace_back"}
 APPEND_FUNCS = {"back_inserter"}
 CONTAINER_TYPES = re.compile(r"Eigen::|std::vector|std::array|std::deque|std::map|std::unordered_map|std::basic_string|"
                              r"tapkee::Dense|tapkee::Sparse|Landmarks|Neighbors|LocalNeighbors|std::_Bit")
+# classes whose constructors only copy / forward their arguments (perfect-forwarding `U&&` parameters bind lvalues
+# without a const conversion in the AST)
+VALUE_CTORS = re.compile(r"^(const )?(std::pair|std::tuple|Eigen::Triplet|tapkee::tapkee_internal::HeapElement|"
+                         r"tapkee::tapkee_internal::SparseTriplet|std::basic_string|std::vector)\b")
 PASS_THROUGH = {"MaterializeTemporaryExpr", "ExprWithCleanups", "CXXBindTemporaryExpr", "ParenExpr", "ConstantExpr",
                 "SubstNonTypeTemplateParmExpr", "CXXDefaultInitExpr"}
 NO_ACCESS = {"IntegerLiteral", "FloatingLiteral", "CXXBoolLiteralExpr", "StringLiteral", "CharacterLiteral",
@@ -413,6 +416,7 @@ class Walker:
         self.flags = set()
         self.loop_count = 0
         self.after_nowait_loop = False
+        self.cur_top = None
 
     # ---------------------------------------------------------------- helpers
     def where(self, n):
@@ -485,7 +489,7 @@ class Walker:
                 self.flags.add("static-local:" + n.get("name", "?"))
             else:
                 self.private[n["id"]] = n.get("name", "?")
-                self.private_why[n["id"]] = "declared inside the region (%s)" % self.where(n)
+                self.private_why[n["id"]] = "declared inside the region at %s" % os.path.basename(self.where(n))
             self.decl_name[n["id"]] = n.get("name", "?")
             self.decl_type[n["id"]] = qual(n)
         inner = n.get("inner", [])
@@ -593,6 +597,7 @@ class Walker:
                      "line": self.src.line(loop), "file": self.src.file(loop)}
         # bounds are evaluated once by the encountering thread
         self.in_loop = False
+        self.cur_top = loop
         self.expr(lo, "R")
         self.expr(cr, "R")
         self.in_loop = True
@@ -610,7 +615,11 @@ class Walker:
         if (k == "CompoundAssignOperator" or (k == "BinaryOperator" and n.get("opcode") in ASSIGN_OPS)) \
                 and self.is_ref_to(self.kids(n)[0], vid):
             return True
-        if k in ("CallExpr", "CXXMemberCallExpr", "CXXConstructExpr", "CXXOperatorCallExpr"):
+        if k == "CXXConstructExpr" and VALUE_CTORS.search(qual(n)):
+            pass
+        elif k == "CallExpr" and self.is_callback_call(n):
+            pass        # user callbacks are assumed not to modify their arguments (named in the table as re-entrant calls)
+        elif k in ("CallExpr", "CXXMemberCallExpr", "CXXConstructExpr", "CXXOperatorCallExpr"):
             # passed by (possibly non-const) reference: an lvalue argument that is not converted to an rvalue / const
             for a in self.kids(n)[1:] if k != "CXXConstructExpr" else self.kids(n):
                 if a.get("kind") == "DeclRefExpr" and a.get("referencedDecl", {}).get("id") == vid:
@@ -626,6 +635,7 @@ class Walker:
         if not k:
             return
         if "valueCategory" in n:
+            self.cur_top = n
             self.expr(n, "R")
             return
         if k == "DeclStmt":
@@ -684,6 +694,7 @@ class Walker:
                 self.alias[d["id"]] = (a[0], a[1] + root[1], a[2] or is_const_type(t))
         for c in ini:
             # binding a non-const reference / taking a pointer does not access the object yet; later uses do
+            self.cur_top = d
             self.expr(c, "R")
 
     def for_stmt(self, n):
@@ -695,11 +706,13 @@ class Walker:
         if g:
             self.guards.append(g)
         if cond.get("kind"):
+            self.cur_top = cond
             self.expr(cond, "R")
         self.stmt(body)
         if g:
             self.guards.pop()
         if inc.get("kind"):
+            self.cur_top = inc
             self.expr(inc, "R")
 
     def inner_guard(self, init, cond, inc, body):
@@ -747,7 +760,7 @@ class Walker:
             if did in self.alias:
                 root, adims, aconst = self.alias[did]
                 m = "R" if aconst and mode != "A" else mode
-                self.raw.append({"decl": root, "dims": tuple(adims) + tuple(dims), "mode": m, "node": n,
+                self.raw.append({"decl": root, "dims": tuple(adims) + tuple(dims), "mode": m, "node": n, "top": self.cur_top,
                                  "critical": self.in_critical is not None, "in_loop": self.in_loop,
                                  "guards": list(self.guards)})
             return
@@ -758,8 +771,16 @@ class Walker:
         self.decl_type.setdefault(did, t)
         if is_const_type(t) and mode != "R":
             mode = "R"
-        self.raw.append({"decl": did, "dims": tuple(dims), "mode": mode, "node": n,
+        self.raw.append({"decl": did, "dims": tuple(dims), "mode": mode, "node": n, "top": self.cur_top,
                          "critical": self.in_critical is not None, "in_loop": self.in_loop, "guards": list(self.guards)})
+
+    def is_callback_call(self, n):
+        callee = self.callee_decl(self.kids(n)[0])
+        if callee.get("kind") == "CXXDependentScopeMemberExpr" and self.kids(callee):
+            return self.is_callback_object(self.kids(callee)[0]) is not None
+        if callee.get("kind") == "DeclRefExpr":
+            return self.is_callback_object(callee) is not None
+        return False
 
     def is_callback_object(self, n):
         """an object whose type is a template type parameter of the function (user callback / iterator)"""
@@ -866,9 +887,10 @@ class Walker:
         if k == "CallExpr":
             return self.call(n, mode, dims, probe)
         if k in ("CXXConstructExpr", "CXXTemporaryObjectExpr", "CXXUnresolvedConstructExpr", "ParenListExpr", "InitListExpr"):
+            m = "R" if k in ("CXXConstructExpr", "CXXTemporaryObjectExpr") and VALUE_CTORS.search(qual(n)) else "RW"
             for c in kids:
                 if c.get("kind"):
-                    E(c, "RW")
+                    E(c, m)
             return
         if k == "CXXNewExpr":
             for c in kids:
@@ -940,8 +962,8 @@ class Walker:
             R(args[0], "RW", dims)
             return
         # arithmetic / comparison: operands are read unless the typed AST passes them without a const conversion
-        for i, a in enumerate(args):
-            E(a, "RW" if (is_member and i == 0) or True else "R")
+        for a in args:
+            E(a, "RW")
         return
 
     def member_call(self, n, mode, dims, probe):
@@ -1185,7 +1207,7 @@ def finish_region(w, name):
             lean_term(g[0]), lean_term(g[1]), lean_term(g[1]), "<" if g[3] else "≤", lean_term(g[2])) for g in guards) or "true"
         key = (nm, kind, a["critical"], a["in_loop"], lean_ix(row), lean_ix(col), gtxt, tuple(vars_))
         srcs = "%s:%s %s" % (os.path.basename(w.src.file(a["node"]) or "?"), w.src.line(a["node"]),
-                             stmt_text(w, a["node"]))
+                             stmt_text(w, a.get("top") or a["node"]))
         if key in seen:
             continue
         seen.add(key)
@@ -1199,7 +1221,7 @@ def finish_region(w, name):
         "line": w.src.line(w.par),
         "loopVar": w.loop["name"], "loopLo": w.loop["lo_text"], "loopHi": w.loop["hi_text"] + ("" if w.loop["strict"] else " (inclusive)"),
         "syms": ictx.syms, "lo": lean_term(lo), "hi": lean_term(hi), "arrays": arrays,
-        "privateVars": sorted(set("%s — %s" % (w.private[i], re.sub(r"\S+/", "", w.private_why[i])) for i in w.private)),
+        "privateVars": sorted(set("%s — %s" % (w.private[i], w.private_why[i]) for i in w.private)),
         "privateNames": sorted(set(w.private.values())),
         "sharedReadOnly": shared_ro, "reentrantCalls": sorted(set(w.reentrant)), "clauses": w.clause_text,
         "flags": sorted(w.flags), "accesses": accesses,
@@ -1251,6 +1273,8 @@ def analyse(repo, cache_dir, log=lambda *a: None):
         found = []
         for d in docs:
             resolve_locs(d)
+        docs.sort(key=lambda d: 0 if d.get("kind") == "FunctionTemplateDecl" else 1)
+        for d in docs:
             if d.get("kind") not in ("FunctionTemplateDecl", "FunctionDecl", "CXXMethodDecl"):
                 continue
             if d.get("name") != fn:
